@@ -786,6 +786,10 @@ KNOWN_CORNERS = {
         "call_site": "GeometricInterrupts.next (np.ceil of np.log(t_min/scale)/np.log(factor))",
         "what": "a scheduled time equal to the time the schedule is asked about is served",
         "corner": "the float estimate of the exponent rounds above the exact integer"},
+    "adaptive-dtmin-overshoot": {
+        "call_site": "adaptive stepper: dt_step = max(min(dt_opt, t_end - t), dt_min)",
+        "what": "adaptive stepper serves each scheduled time exactly at it",
+        "corner": "an accepted step ends less than dt_min before the target: the call is up to dt_min = 1e-10 late"},
     "extra-frame-before-final-time": {
         "call_site": "Controller._run_main_process main loop (tracker_atol = dt/2)",
         "what": "the one frame more than floor(T/D)+1 is taken at the final time",
@@ -1184,6 +1188,7 @@ def monitor_exact(case, real, strict_exact=True):
                 return True
         return False
 
+    dtmin_seen = False
     for i, tr in enumerate(case["trackers"]):
         s = tr["sched"]
         if s["kind"] != "constant" or not s["dt"] > 0:
@@ -1205,6 +1210,14 @@ def monitor_exact(case, real, strict_exact=True):
                 exact_required = (strict_exact or n_tr == 1) and tau0 == t0
                 # a call at t_end for a scheduled time just beyond t_end is the "one frame more, at the final time"
                 sliver = abs(t - t1) <= rt and t1 < a < t1 + EPS * dt_eff + rt
+                if (exact_required and case.get("round_off") and not sliver and not dtmin_seen
+                        and 1e-12 * max(1.0, abs(a)) < t - a <= rt):
+                    # literal clause "exactly at it": an accepted step that ends less than dt_min = 1e-10 before the
+                    # target is followed by a step of length dt_min, so the call is up to dt_min late (listed finding;
+                    # Lean: adaptiveStepper_lands, adaptive_overshoot_by_dtmin)
+                    dtmin_seen = True
+                    bad.append((f"call {k} of constant tracker {i} exactly at its scheduled time (adaptive stepper)",
+                                {"call": t, "late by": t - a}, a, "adaptive-dtmin-overshoot"))
                 if exact_required and not (abs(t - a) <= rt) and not sliver:
                     corner = "adaptive-served-with-another-tracker" if (t < a and another_on_time(i, t)) else None
                     bad.append((f"call {k} of constant tracker {i} exactly at its scheduled time (adaptive stepper)",
